@@ -546,6 +546,16 @@ func checkC16(p *Prog, res *Result, tier string) {
 		}
 	}
 
+	// (R6, continued) .. and every reader is configured with the deletion marker (C03-R2): the limited and the unlimited
+	// range path must agree on which records are deleted
+	{
+		sub3 := p.subResult("C03", tier)
+		for _, o := range sub3.Obls {
+			if o.Rule == "C03-R2" && (strings.Contains(o.Construct, "literal of") || strings.Contains(o.Construct, "is the deletion marker")) {
+				res.add("C16-R6", o.Rule+" "+o.Construct, o.Status, o.Pos, o.Detail)
+			}
+		}
+	}
 	// ---- R8: what the transaction shapes are translated into keeps etcd's meaning only if the backend's conditions do
 	// (create over a deletion record, delete guard, deletion flag: C01-R3/R4/R7), and an engine fault reaches the client
 	// as an error, not as an answer (the metrics wrapper in front of every engine is transparent: C11-R5)
